@@ -65,6 +65,73 @@ def _indep(n):
     return independent(body, "xx", n[0], "xd")
 
 
+def random_skeletons(rng, n, k=3, depth=3):
+    """random binder nestings over placeholder names P0..P{k-1} (reduce / subs by variable and by index tensor /
+    lambda / cat / stack over binary ops and leaves); every assignment of POOL names to the placeholders is an instance"""
+    from lang.prog import binary, cat, lambda_, leaf, reduce_, stack, subs, unary, var
+    P = ["P%d" % i for i in range(k)]
+    counter = [0]
+
+    def fresh(prefix):
+        counter[0] += 1
+        return "%s%d" % (prefix, counter[0])
+
+    def gen(d):
+        kinds = ["leaf"] if d == 0 else ["leaf", "binary", "binary", "reduce", "reduce", "subs_var", "subs_ix", "lambda", "cat", "stack", "unary"]
+        kind = rng.choice(kinds)
+        if kind == "leaf":
+            ns = rng.sample(P, rng.randint(1, min(2, k)))
+            return leaf(fresh("x"), tuple((nm, 2) for nm in ns), (), "real")
+        if kind == "binary":
+            a, b = gen(d - 1), gen(d - 1)
+            from harness.known import _nodes
+            nomax = not any(nd[0] == "reduce" and nd[1] == "max" for x_ in (a, b) for nd in _nodes(x_))
+            return binary(rng.choice(["add", "mul", "sub"]) if nomax else rng.choice(["add", "sub"]), a, b)
+        if kind == "unary":
+            return unary(rng.choice(["neg", "exp"]), gen(d - 1))
+        if kind == "reduce":
+            a = gen(d - 1)
+            from harness.known import _nodes
+            # (max, mul) is a semiring on non-negative data only (see KF-maxmul-signed): max only over sums here
+            mulfree = not any(nd[0] == "binary" and nd[1] == "mul" for nd in _nodes(a))
+            return reduce_(rng.choice(["add", "add", "max"]) if mulfree else "add", a, ((rng.choice(P), 2),))
+        if kind == "subs_var":
+            return subs(gen(d - 1), ((rng.choice(P), var(rng.choice(P), ("bint", 2))),))
+        if kind == "subs_ix":
+            return subs(gen(d - 1), ((rng.choice(P), leaf(fresh("ix"), ((rng.choice(P), 2),), (), ("int", 2))),))
+        if kind == "lambda":
+            return lambda_(rng.choice(P), 2, gen(d - 1))
+        if kind == "cat":
+            a = gen(d - 1)
+            return cat(rng.choice(P), (a, gen(d - 1)), rng.choice(P))
+        return stack(rng.choice(P), (gen(d - 1), gen(d - 1)))
+    out = []
+    tries = 0
+    while len(out) < n and tries < n * 30:
+        tries += 1
+        counter[0] = 0
+        try:
+            sk = gen(depth)
+        except Exception:
+            continue
+        if sk[0] == "leaf":
+            continue
+        out.append(sk)
+    return out
+
+
+def instantiate(sk, names):
+    m = {"P%d" % i: nm for i, nm in enumerate(names)}
+
+    def go(x):
+        if isinstance(x, str):
+            return m.get(x, x)
+        if isinstance(x, tuple):
+            return tuple(go(y) for y in x)
+        return x
+    return go(sk)
+
+
 def worker(inst):
     from harness.core import check_prog
     from harness.schedules import SCHEDULES
@@ -96,6 +163,17 @@ def instances(tier, seed):
             for s in scheds:
                 n += 1
                 out.append((s, tname, p, n % 17 == 0))
+    # random binder nestings x every name assignment
+    seen = set()
+    for i, sk in enumerate(random_skeletons(rng, 12 if tier == "quick" else 400)):
+        for names in itertools.product(POOL, repeat=3):
+            p = instantiate(sk, names)
+            if p in seen or not _leaf_names_ok(p) or not well_typed(p):
+                continue
+            seen.add(p)
+            for s in (SCHEDS if tier != "quick" else rng.sample(SCHEDS, 2)):
+                n += 1
+                out.append((s, "random%d" % i, p, n % 17 == 0))
     return out
 
 
@@ -113,7 +191,7 @@ def main():
     chk = Check("C05", "model_checking")
     insts = instances(chk.tier, chk.seed)
     chk.map("checks.c05", "worker", insts, chunksize=8)
-    chk.bounds = dict(name_pool=list(POOL), templates=sorted(templates()), nesting_depth="<= 3 binders", schedules=SCHEDS)
+    chk.bounds = dict(name_pool=list(POOL), templates=sorted(templates()), random_skeletons="12 | 400 seeded binder nestings of depth 3 over reduce / subs (variable, index tensor) / lambda / cat / stack, each under every name assignment", nesting_depth="<= 3 binders", schedules=SCHEDS)
     chk.assumptions = ["names containing '__BOUND' excluded (as the property states)", "alpha-invariance follows from value == lexically scoped oracle for EVERY name assignment (the oracle is alpha-invariant by construction)",
                        "binders of Integrate/Scatter/Approximate/MarkovProduct/factory-made terms are not in the Prog language: covered only through C10/C11/C14 programs"]
     chk.floor = 300
